@@ -634,11 +634,7 @@ func (r *reader) read(src []byte) {
 			} else {
 				obj = String(src[r.tokenStart:r.pos])
 			}
-			if 0 < len(r.stack) {
-				r.stack = append(r.stack, obj)
-			} else {
-				r.code = append(r.code, obj)
-			}
+			r.push(obj)
 			r.mode = valueMode
 		case pipeDone:
 			var obj Object
@@ -647,11 +643,7 @@ func (r *reader) read(src []byte) {
 			} else {
 				obj = Symbol(src[r.tokenStart:r.pos])
 			}
-			if 0 < len(r.stack) {
-				r.stack = append(r.stack, obj)
-			} else {
-				r.code = append(r.code, obj)
-			}
+			r.push(obj)
 			r.mode = valueMode
 
 		case escByte:
@@ -776,11 +768,7 @@ func (r *reader) read(src []byte) {
 			r.mode = bitVectorMode
 		case bitVectorDone:
 			token := r.makeToken(src)
-			if 0 < len(r.stack) {
-				r.stack = append(r.stack, ReadBitVector(token))
-			} else {
-				r.code = append(r.code, ReadBitVector(token))
-			}
+			r.push(ReadBitVector(token))
 			r.mode = valueMode
 			goto Retry
 
@@ -824,11 +812,7 @@ func (r *reader) read(src []byte) {
 			r.raise("sharp macro not terminated")
 		case bitVectorMode:
 			bv := ReadBitVector(r.makeToken(src))
-			if 0 < len(r.stack) {
-				r.stack = append(r.stack, bv)
-			} else {
-				r.code = append(r.code, bv)
-			}
+			r.push(bv)
 		}
 		if 0 < len(r.stack) {
 			r.partial("list not terminated")
@@ -892,57 +876,48 @@ func (r *reader) closeList() {
 		} else {
 			obj = list
 		}
-		if 0 < start {
-			switch r.stack[start-1] {
-			case quoteMarker:
-				if newQuote == nil {
-					newQuote = CLPkg.GetFunc("quote").Create
-				}
-				obj = newQuote(List{obj})
-				start--
-				r.stack[start] = nil
-				r.stack = r.stack[:start+1]
-			case sharpQuoteMarker:
-				if newSharpQuote == nil {
-					newSharpQuote = CLPkg.GetFunc("function").Create
-				}
-				obj = newSharpQuote(List{obj})
-				start--
-				r.stack[start] = nil
-				r.stack = r.stack[:start+1]
-			case backquoteMarker:
-				if newBackquote == nil {
-					newBackquote = CLPkg.GetFunc("backquote").Create
-				}
-				obj = newBackquote(List{obj})
-				start--
-				r.stack[start] = nil
-				r.stack = r.stack[:start+1]
-			case commaMarker:
-				if newComma == nil {
-					newComma = CLPkg.GetFunc("comma").Create
-				}
-				obj = newComma(List{obj})
-				start--
-				r.stack[start] = nil
-				r.stack = r.stack[:start+1]
-			case commaAtMarker:
-				if newCommaAt == nil {
-					newCommaAt = CLPkg.GetFunc("comma-at").Create
-				}
-				obj = newCommaAt(List{obj})
-				start--
-				r.stack[start] = nil
-				r.stack = r.stack[:start+1]
-			}
-		}
 	}
-	if 0 < start {
-		r.stack[start] = obj
-		r.starts = r.starts[:len(r.starts)-1]
+	// Drop the list start then push the object which applies any quote,
+	// function, backquote, or comma marker before it.
+	r.stack[start] = nil
+	r.stack = r.stack[:start]
+	r.starts = r.starts[:len(r.starts)-1]
+	r.push(obj)
+}
+
+// push a completed object. The quote, function, backquote, and comma markers
+// directly before it are applied, innermost first, whatever kind of object it
+// is. The result is added to the enclosing list or, at the top level, to the
+// code.
+func (r *reader) push(obj Object) {
+	for 0 < len(r.stack) {
+		var create *func(args List) Object
+		var name string
+		switch r.stack[len(r.stack)-1] {
+		case quoteMarker:
+			create, name = &newQuote, "quote"
+		case sharpQuoteMarker:
+			create, name = &newSharpQuote, "function"
+		case backquoteMarker:
+			create, name = &newBackquote, "backquote"
+		case commaMarker:
+			create, name = &newComma, "comma"
+		case commaAtMarker:
+			create, name = &newCommaAt, "comma-at"
+		}
+		if create == nil {
+			break
+		}
+		if *create == nil {
+			*create = CLPkg.GetFunc(name).Create
+		}
+		obj = (*create)(List{obj})
+		r.stack[len(r.stack)-1] = nil
+		r.stack = r.stack[:len(r.stack)-1]
+	}
+	if 0 < len(r.stack) {
+		r.stack = append(r.stack, obj)
 	} else {
-		r.stack = r.stack[:0]
-		r.starts = r.starts[:0]
 		r.code = append(r.code, obj)
 	}
 }
@@ -964,77 +939,9 @@ func (r *reader) pushToken(src []byte) {
 		obj = nil
 		goto Push
 	}
-	if 0 < len(r.stack) {
-		switch r.stack[len(r.stack)-1] {
-		case quoteMarker:
-			if newQuote == nil {
-				newQuote = CLPkg.GetFunc("quote").Create
-			}
-			if len(r.stack) == 1 {
-				r.code = append(r.code, newQuote(List{Symbol(token)}))
-				r.stack[len(r.stack)-1] = nil
-				r.stack = r.stack[:0]
-			} else {
-				r.stack[len(r.stack)-1] = newQuote(List{Symbol(token)})
-			}
-			return
-		case sharpQuoteMarker:
-			if newSharpQuote == nil {
-				newSharpQuote = CLPkg.GetFunc("function").Create
-			}
-			if len(r.stack) == 1 {
-				r.code = append(r.code, newSharpQuote(List{Symbol(token)}))
-				r.stack[len(r.stack)-1] = nil
-				r.stack = r.stack[:0]
-			} else {
-				r.stack[len(r.stack)-1] = newSharpQuote(List{Symbol(token)})
-			}
-			return
-		case backquoteMarker:
-			if newBackquote == nil {
-				newBackquote = CLPkg.GetFunc("backquote").Create
-			}
-			if len(r.stack) == 1 {
-				r.code = append(r.code, newBackquote(List{Symbol(token)}))
-				r.stack[len(r.stack)-1] = nil
-				r.stack = r.stack[:0]
-			} else {
-				r.stack[len(r.stack)-1] = newBackquote(List{Symbol(token)})
-			}
-			return
-		case commaMarker:
-			if newComma == nil {
-				newComma = CLPkg.GetFunc("comma").Create
-			}
-			if len(r.stack) == 1 {
-				r.code = append(r.code, newComma(List{Symbol(token)}))
-				r.stack[len(r.stack)-1] = nil
-				r.stack = r.stack[:0]
-			} else {
-				r.stack[len(r.stack)-1] = newComma(List{Symbol(token)})
-			}
-			return
-		case commaAtMarker:
-			if newCommaAt == nil {
-				newCommaAt = CLPkg.GetFunc("comma-at").Create
-			}
-			if len(r.stack) == 1 {
-				r.code = append(r.code, newCommaAt(List{Symbol(token)}))
-				r.stack[len(r.stack)-1] = nil
-				r.stack = r.stack[:0]
-			} else {
-				r.stack[len(r.stack)-1] = newCommaAt(List{Symbol(token)})
-			}
-			return
-		}
-	}
 	obj = r.resolveToken(token)
 Push:
-	if 0 < len(r.stack) {
-		r.stack = append(r.stack, obj)
-	} else {
-		r.code = append(r.code, obj)
-	}
+	r.push(obj)
 }
 
 func (r *reader) resolveToken(token []byte) Object {
@@ -1176,11 +1083,7 @@ func (r *reader) pushChar(src []byte) {
 	if c == 0 {
 		r.raise(`'#\%s' is not a valid character`, src[r.tokenStart:r.pos])
 	}
-	if 0 < len(r.stack) {
-		r.stack = append(r.stack, c)
-	} else {
-		r.code = append(r.code, c)
-	}
+	r.push(c)
 }
 
 func (r *reader) pushInteger(src []byte) {
@@ -1196,11 +1099,7 @@ func (r *reader) pushInteger(src []byte) {
 			r.raise("%s is not a valid base 2 integer", token)
 		}
 	}
-	if 0 < len(r.stack) {
-		r.stack = append(r.stack, obj)
-	} else {
-		r.code = append(r.code, obj)
-	}
+	r.push(obj)
 }
 
 // String returns a string representation of the instance.
